@@ -183,8 +183,35 @@ func clampModel(v, lo, hi interface{}) interface{} {
 	return v
 }
 
-// Run executes the call and compares with the model.
+// Run executes the call and compares with the model; a case that carries a specialised engine is
+// then run once more with the default engine, and the two deliveries - shape included - must agree.
 func (c *EWCase) Run() string {
+	msg := c.run()
+	if msg != "" || c.Engine == "" || !ewLast.Computed {
+		return msg
+	}
+	mine := ewLast
+	ref := *c
+	ref.Engine, ref.scTensor, ref.scVal = "", nil, nil
+	rmsg := ref.run()
+	theirs := ewLast
+	ewLast = mine
+	if rmsg != "" || !theirs.Computed {
+		return "" // what the default engine does with this case is the business of the other checks
+	}
+	if !eqInts(mine.Result.Shape, theirs.Result.Shape) {
+		return fmt.Sprintf("%s.%s(%s, mode %s) a=%v%v dst=%v: engine %q delivers shape %v, the default engine %v", c.Fam, c.Op, c.DT, c.Mode, c.A.Shape, c.A.L, layoutOf(c.Dst), c.Engine, mine.Result.Shape, theirs.Result.Shape)
+	}
+	for k := range mine.Result.E {
+		if !eqVal(mine.Result.E[k], theirs.Result.E[k]) {
+			return fmt.Sprintf("%s.%s(%s, mode %s) a=%v%v: element %d is %s with engine %q but %s with the default engine", c.Fam, c.Op, c.DT, c.Mode, c.A.Shape, c.A.L, k, fmtVal(mine.Result.E[k]), c.Engine, fmtVal(theirs.Result.E[k]))
+		}
+	}
+	rec.Class("engine:compared-with-default")
+	return ""
+}
+
+func (c *EWCase) run() string {
 	d := dtByName(c.DT)
 	bd := d
 	if c.BDT != "" {
@@ -561,6 +588,11 @@ func (c *EWCase) Run() string {
 	eqU := func(a, b interface{}) bool { return isUndef(b) || eq(a, b) }
 	if rd.Dtype() != resDT.T {
 		return desc + fmt.Sprintf(": result has element type %v, expected %v", rd.Dtype(), resDT.Name)
+	}
+	if c.Dst != nil && !eqInts(c.Dst.Shape, A.arr.Shape) && tensor.Shape(c.Dst.Shape).Eq(tensor.Shape(A.arr.Shape)) && prod([]int(rd.Shape())) == len(want.E) {
+		// a destination that holds the same vector in another form ((n), (n,1), (1,n) are "equal" shapes to the
+		// library): which form the result keeps is not stated; the engines must agree on it (see Run)
+		want.Shape = cloneInts([]int(rd.Shape()))
 	}
 	if m := compareAt(rd, want, eqU); m != "" {
 		return desc + ": result: " + m
